@@ -33,6 +33,7 @@ type Config struct {
 	Prefix      []int // forced leading Choose results
 	DiscoverDepth int // >0: stop each path after this many Choose calls and record prefixes
 	PanicOK     bool // harness says: Go panics are not findings (still end the path)
+	KeepFuncs   []string // name prefixes of functions executed although their package is black-holed
 	PreemptAtSync bool // explore a context switch before every mutex Lock/RLock (bounded schedule exploration for small concurrent harnesses)
 	Verbose     bool
 	MaxConcretize int
